@@ -50,6 +50,9 @@ type Root struct {
 	// Sequential makes Run wait for the subtest to finish and Parallel a no-op, like
 	// the T of the standalone testscript command (the T interface allows both styles).
 	Sequential bool
+	// OnSubEnd, if set, is called in the subtest's task at the very instant its function has
+	// ended (before any other task can run).
+	OnSubEnd func(*Sub)
 }
 
 func NewRoot(s *simrt.Sim, epoch time.Time, verbose bool) *Root {
@@ -99,7 +102,11 @@ func (r *Root) Run(name string, f func(testscript.T)) {
 			sub.Log = strings.Join(st.logs, "\n")
 			r.done++
 			sub.Order = r.done
+			cb := r.OnSubEnd
 			r.mu.Unlock()
+			if cb != nil {
+				cb(sub)
+			}
 		}()
 		f(st)
 	})
